@@ -10,6 +10,7 @@ import (
 	"verifharness/gl/c20"
 	"verifharness/lib/c12"
 	"verifharness/lib/c16"
+	"verifharness/lib/c18"
 	"verifharness/sl/c05"
 )
 
@@ -18,6 +19,7 @@ var cmds = map[string]func([]string) int{
 	"C12": c12.Main,
 	"C14": c14.Main,
 	"C16": c16.Main,
+	"C18": c18.Main,
 	"C20": c20.Main,
 }
 
